@@ -65,7 +65,9 @@ def origins(fn, operand_or_local, depth=0, seen=None):
     else:
         c = operand_or_local.get("const")
         if c is not None:
-            return {(("const", c.get("str", c["v"])), ())}
+            if "promoted" in c:
+                return {(("promoted", c["promoted"]), ())}
+            return {(("const", c.get("str", c.get("char", c.get("int", c["v"])))), ())}
         pl = op_place(operand_or_local)
         if pl is None:
             return {(("unknown", -1), ())}
